@@ -5,83 +5,7 @@ import json, os, subprocess
 ROOT = os.path.dirname(os.path.dirname(os.path.abspath(__file__)))
 
 # property id -> (level category, level text, level note, technique, design section)
-CLAIMED = {
-    "C24": ("proof",
-            "Contract proof over the real AST of ParseByteRange: every accepted range satisfies 0 <= start <= end < length, "
-            "for all byte strings and lengths; callee ParseUint used through its own proved contract.",
-            "Trusts the gocv VC generator, the SMT solvers and the library contracts of bytes.HasPrefix/IndexByte; "
-            "handleRequest status/Content-Range wiring is not yet under contract (see evidence.not_decided).",
-            "deductive verification: weakest-precondition VCs from go/ast+go/types, discharged by z3/cvc5"),
-    "C30": ("proof",
-            "Contract proof of parseUintBuf and ParseUint against the spec function decval for both 64-bit and 32-bit int "
-            "(wrap-around arithmetic modelled exactly): accepted strings are exactly digit strings whose value fits, the value is exact, never wrapped.",
-            "Trusts the VC generator, the solvers; 32-bit view obtained by type-checking the tree with GOARCH=386; "
-            "monotonicity of decimal value under appending digits is a stated arithmetic fact.",
-            "deductive verification: loop invariants over a recursive spec function (fuel-bounded unfolding), z3/cvc5"),
-
-    "C02": ("proof",
-            "Skeleton-mode contract proof over the real serveConnCounted: a ghost flag tracks whether bytes of the current framed body may remain on the wire; "
-            "the loop invariant says it is false whenever the next request head is read, on every path (streamed bodies, rejected Expect: 100-continue, errors).",
-            "Trusts the ghost effects declared for callees (listed in the evidence), the VC generator and the solvers; byte-exact consumption by the body readers is assumed here.",
-            "deductive verification in skeleton mode: exact control flow + scalar locals, declared ghost effects for callees, loop invariant discharged by z3/cvc5"),
-    "C10": ("proof",
-            "Contract proof over serveConnCounted, ServeConn and workerFunc: the response carries Connection: close exactly when connectionClose is set, every listed reason sets it, "
-            "the loop never continues after a close was sent, HTTP/1.0 keep-alive responses get the header, and callers close the connection unless it was hijacked.",
-            "Trusts declared ghost effects of callees, the VC generator, the solvers; client side and header byte format not decided.",
-            "deductive verification in skeleton mode with ghost state for what was sent"),
-    "C11": ("proof",
-            "Contract proof over serveConnCounted: a response is only written for a request whose handler ran or that was itself rejected; per-request decisions are reset each iteration; "
-            "Request.Reset and Response.Reset are reached on every path back to the loop head.",
-            "Trusts declared ghost effects of callees; what the Reset methods reset is not under contract yet.",
-            "deductive verification in skeleton mode: loop invariants over ghost dirty flags"),
-    "C14": ("proof",
-            "Contract proof that every ConnState call in serveConnCounted, ServeConn and workerFunc is a legal transition of the documented state machine, StateNew comes first, "
-            "exactly one terminal state follows, and StateActive is only reported after a byte was seen (one recorded known finding).",
-            "Trusts declared ghost effects (bufio.Reader.Peek, acquireByteReader); cross-goroutine hand-off not decided.",
-            "deductive verification in skeleton mode: ghost state machine, precondition at each hook call"),
-    "C17": ("proof",
-            "Contract proof over serveConnCounted, ServeConn and hijackConnHandler: the response is written and flushed before the hijack goroutine starts, reader/writer are handed over (not released), "
-            "the server reports errHijacked only when the handler was started, the connection is closed after the handler unless KeepHijackedConns, the ctx is released once.",
-            "Trusts declared ghost effects; the doc-stated exception (no hijack when Connection: close) is part of the contract.",
-            "deductive verification in skeleton mode: ghost flags wrote/flushed/hijackStarted"),
-    "C32": ("proof",
-            "All eight lookup tables (read from the constants of the current tree) equal their defining predicates for every byte value (ground instances, exhaustive); "
-            "normalizeHeaderKeyValidated equals the positional canonical-form spec for all inputs.",
-            "Predicates written from RFC 3986 2.3 / RFC 9110 tchar, field-vchar; agreement with net/textproto and html is external.",
-            "deductive verification: exhaustive ground lemma + quantified loop invariant"),
-    "C35": ("proof",
-            "Skeleton contract proof over serveConnCounted: a ghost flag 'multipart temp files may exist' is cleared by Request.Reset/releaseCtx on every path before the next request head is read and before return (hijack/timeout excepted).",
-            "Trusts that Request.Reset removes multipart files (ResetBody -> RemoveMultipartFormFiles, mime/multipart external); round trip not decided.",
-            "deductive verification in skeleton mode: loop invariant over a ghost flag"),
-
-    "C04": ("proof",
-            "Skeleton contract proof over transport.RoundTrip and the closer of a streamed response body: a connection is returned to the pool only after the response was read completely "
-            "(ReadLimitBody succeeded, or the stream was read to the end of its framing) and every acquired connection is released or closed exactly once.",
-            "Sequential mechanism only: PipelineClient queues and all concurrency/timeout interleavings are not decided. Trusts declared ghost effects of callees.",
-            "deductive verification in skeleton mode: preconditions at ReleaseConn over ghost state"),
-    "C19": ("proof",
-            "Skeleton contract proof over HostClient.Do, doNonNilReqResp, transport.RoundTrip and isIdempotent: ghost counter of transmissions bounded by MaxIdemponentCallAttempts (default 5), "
-            "at most one transmission for body streams and for non-idempotent methods without retry callbacks, no retry after ErrBodyTooLarge, no transmission after the deadline, deadline moved only on resetTimeout.",
-            "Assumes c.do does not change the request method or body-stream status; the retry callbacks are arbitrary.",
-            "deductive verification in skeleton mode: loop invariant sent == attempts"),
-    "C20": ("proof",
-            "Contract proof over doRequestFollowRedirects (ghost: credentials present / target trusted / transmissions), stripSensitiveHeadersOnRedirect (all six headers deleted), "
-            "shouldStripSensitiveHeadersOnRedirect and the exact-mode isDomainOrSubdomainBytes (same host or '.'+parent suffix only, never IP literals), 303 and 301/302 method rules.",
-            "bytes.EqualFold is specified for ASCII only; that the host checked is the host dialled rests on URI serialisation (C27, not decided).",
-            "deductive verification: skeleton ghost invariant + exact contract of the domain test"),
-    "C21": ("proof",
-            "Skeleton contract proof over Client.Do, Client.hostClient, HostClient.doNonNilReqResp, dialHostHard and dialAddr: the transport is reached only when IsTLS equals 'scheme is https', "
-            "the host-client map and the new HostClient are chosen by that flag, TLS dials return a crypto/tls-wrapped connection using the config cached for the dialled address.",
-            "A custom dialer's connection with a Handshake() method is taken to be TLS (documented convention); ConfigureClient callbacks may change IsTLS, which is why the check in doNonNilReqResp carries the property.",
-            "deductive verification in skeleton mode: preconditions at the transport / dial calls"),
-
-    "C05": ("proof",
-            "Exact-mode contract proofs: removeNewLines / normalizeHeaderKey leave no CR or LF for every input; a type-invariant sweep enumerates, from the current source, every method of RequestHeader / "
-            "ResponseHeader / header that assigns a directly stored field and proves the field CR/LF-free afterwards; every setter that reaches the multi-valued storage layer is proved to pass it CR/LF-free key and value.",
-            "The []argsKV storage functions and setSpecialHeader are trusted contracts (bodies not verified, modifies lists read off the code); serialisation (AppendBytes) writing the stored fields verbatim, "
-            "trailers and fasthttpproxy are not decided yet; SetCanonical assumes its documented precondition (canonical, hence clean, key).",
-            "deductive verification: quantified loop invariants over a byte-region heap, type-invariant sweep, call-site preconditions"),
-}
+CLAIMED = {k: (v["category"], v["text"], v["note"], v["technique"]) for k, v in json.load(open(os.path.join(ROOT, "tools", "claims.json"))).items()}
 
 NOT_APPLICABLE = {
     "C15": "Graceful shutdown is a statement about all interleavings of Shutdown with in-flight goroutines and about eventual completion; no sequential contract carries it.",
